@@ -151,6 +151,20 @@ def discharge(ob: Obligation, inputs, timeout_ms: int, use_cvc5: bool, both: boo
         return {"status": status, "backend": "z3", "time": time.time() - t0, "model": None}
     s.add(z3.Not(ob.goal))
     r = s.check()
+    if r == z3.unknown:
+        # quantified queries are sensitive to the solver's random choices: two more attempts with other seeds
+        for seed in (7, 23):
+            s2 = z3.Solver()
+            s2.set("timeout", timeout_ms)
+            s2.set("random_seed", seed)
+            s2.set("smt.random_seed", seed)
+            for c in ob.assumptions:
+                s2.add(c)
+            s2.add(z3.Not(ob.goal))
+            r2 = s2.check()
+            if r2 != z3.unknown:
+                s, r = s2, r2
+                break
     backend = "z3"
     model = None
     status = {"unsat": "proved", "sat": "refuted", "unknown": "unknown"}[str(r)]
